@@ -236,8 +236,8 @@ HALT_FIELD = "state._current_halt_mode"
 
 def halt_invariant_witness(W, name, desc, res):
     """None while the path keeps the halt mode OFF, else a description."""
-    from .traceutil import out_of_scope_exception, resolve
-    if res.outcome == "raise" and out_of_scope_exception(W.P, res.value.cls):
+    from .traceutil import out_of_scope_path, resolve
+    if res.outcome == "raise" and out_of_scope_path(W.P, res):
         return None
     try:
         st = res.heap[W.ref("state").addr]
